@@ -33,9 +33,9 @@ import (
 func init() { register("votingpower", domVotingPower) }
 
 type vpAssetCfg struct {
-	Asset               string
-	Price               *big.Int
-	PriceDec, AssetDec  int64
+	Asset              string
+	Price              *big.Int
+	PriceDec, AssetDec int64
 }
 type vpAssetState struct {
 	Asset               string
@@ -54,6 +54,32 @@ type vpAvsIn struct {
 	MinSelf  *big.Int // nil => error
 	// independent view for the monitor
 	RawPrice map[string]vpAssetCfg
+	// one of the AVS's assets has no oracle token at all: the property's "latest oracle price"
+	// does not exist for it, the formula is undefined for this AVS (its update returns an error)
+	Unpriced bool
+}
+
+// vpRawCfg: decimals from the asset record, price from the raw oracle store (latest round),
+// price 1 / decimal 0 when there is no usable round. known: the asset is registered in x/assets;
+// priced: the oracle params bind a token to it.
+func vpRawCfg(c *Chain, ctx sdk.Context, oparams oracletypes.Params, a string) (cfg vpAssetCfg, known, priced bool) {
+	ai, err := c.App.AssetsKeeper.GetStakingAssetInfo(ctx, a)
+	if err != nil {
+		return cfg, false, false
+	}
+	cfg = vpAssetCfg{Asset: a, Price: big.NewInt(1), PriceDec: 0, AssetDec: int64(ai.AssetBasicInfo.Decimals)}
+	if a == assetstypes.ExocoreAssetID {
+		return cfg, true, true
+	}
+	tid := oparams.GetTokenIDFromAssetID(a)
+	if tid > 0 {
+		if tr, found := c.App.OracleKeeper.GetPriceTRLatest(ctx, uint64(tid)); found {
+			if v, ok := new(big.Int).SetString(tr.Price, 10); ok && v.Sign() > 0 {
+				cfg.Price, cfg.PriceDec = v, int64(uint8(tr.Decimal))
+			}
+		}
+	}
+	return cfg, true, tid > 0
 }
 
 // vpReadInputs reads what UpdateVotingPower will read, for every registered AVS.
@@ -94,17 +120,12 @@ func vpReadInputs(c *Chain, ctx sdk.Context) ([]vpAvsIn, []vpOpAssets) {
 		// independent: asset list from the AVS record, decimals from the asset record, price from
 		// the raw oracle store (latest round), price 1 when there is no usable round
 		for _, a := range info.AssetIDs {
-			ai, err := c.App.AssetsKeeper.GetStakingAssetInfo(ctx, a)
-			if err != nil {
+			cfg, known, priced := vpRawCfg(c, ctx, oparams, a)
+			if !known {
 				continue
 			}
-			cfg := vpAssetCfg{Asset: a, Price: big.NewInt(1), PriceDec: 0, AssetDec: int64(ai.AssetBasicInfo.Decimals)}
-			if tid := oparams.GetTokenIDFromAssetID(a); tid > 0 {
-				if tr, found := c.App.OracleKeeper.GetPriceTRLatest(ctx, uint64(tid)); found {
-					if v, ok := new(big.Int).SetString(tr.Price, 10); ok && v.Sign() > 0 {
-						cfg.Price, cfg.PriceDec = v, int64(uint8(tr.Decimal))
-					}
-				}
+			if !priced {
+				in.Unpriced = true
 			}
 			in.RawPrice[a] = cfg
 		}
@@ -194,11 +215,15 @@ func vpSpecUSD(amount *big.Int, cfg vpAssetCfg) *big.Int {
 	return x.Quo(x, pow10(int(cfg.AssetDec+cfg.PriceDec)))
 }
 
+// token equivalent of the operator's own share: floor(operator share × pool amount / total share),
+// in exact integer arithmetic (raw 18-decimal shares; the scale cancels). After a slash the pool
+// amount is below the share total, so this is NOT the share figure any more.
 func vpSelfTokens(a vpAssetState) *big.Int {
 	if a.TShare.Sign() == 0 {
 		return new(big.Int)
 	}
-	return decFromRaw(a.OSh).MulInt(sdkmath.NewIntFromBigInt(a.Amount)).Quo(decFromRaw(a.TShare)).TruncateInt().BigInt()
+	x := new(big.Int).Mul(a.OSh, a.Amount)
+	return x.Quo(x, a.TShare)
 }
 
 type vpRunner struct {
@@ -206,6 +231,11 @@ type vpRunner struct {
 	c    *Chain
 	hist []string
 	ends int
+	// coverage of the multi-AVS / slashed histories (dom_votingpower_multi.go)
+	failEnds  int // epoch ends of an AVS whose update fails (asset without oracle token)
+	afterFail int // AVSs evaluated after a failing one in the same hook call
+	flips     int // entries whose eligibility differs between the token and the share figure
+	nSlash    int
 }
 
 func (r *vpRunner) op(op, obs string) {
@@ -257,11 +287,27 @@ func (r *vpRunner) block(d time.Duration) bool {
 		}
 		var n int64
 		fmt.Sscan(f[2], &n)
+		failedBefore := false
 		for _, in := range ins {
 			if in.Info.EpochIdentifier != f[1] || n < int64(in.Info.StartingEpoch)-1 {
 				continue
 			}
 			r.ends++
+			if in.Unpriced {
+				// an asset of this AVS has no oracle token: there is no "latest oracle price" to
+				// apply, the property says nothing about this AVS at this epoch end (its update
+				// fails and its values stay; the Lean model replays exactly that). The OTHER AVSs
+				// ending now are still evaluated below, whatever their place in the AVS store.
+				env.Note("epoch-ends-of-unpriced-avs-skipped")
+				r.failEnds++
+				failedBefore = true
+				continue
+			}
+			if failedBefore {
+				// `ins` is in AVS-store order: this AVS comes after a failing one in the hook's loop
+				env.Note("avs-evaluated-after-a-failing-one-in-the-same-hook")
+				r.afterFail++
+			}
 			env.Eval("C05.formula")
 			sum := new(big.Int)
 			for k, v := range after.Entries {
@@ -270,6 +316,7 @@ func (r *vpRunner) block(d time.Duration) bool {
 					continue
 				}
 				total, self := new(big.Int), new(big.Int)
+				shareFigure, repriced := new(big.Int), false // coverage only: what the SHARE (not its token equivalent) would give
 				for _, a := range opAssets[kf[1]] {
 					cfg, ok := in.RawPrice[a.Asset]
 					if !ok {
@@ -277,6 +324,17 @@ func (r *vpRunner) block(d time.Duration) bool {
 					}
 					total.Add(total, vpSpecUSD(a.Amount, cfg))
 					self.Add(self, vpSpecUSD(vpSelfTokens(a), cfg))
+					shareFigure.Add(shareFigure, vpSpecUSD(new(big.Int).Quo(a.OSh, bigPrec), cfg))
+					if a.OSh.Sign() > 0 && new(big.Int).Mul(a.Amount, bigPrec).Cmp(a.TShare) != 0 {
+						repriced = true
+					}
+				}
+				if repriced {
+					env.Note("entries-with-self-share-in-a-slashed-pool")
+					if in.MinSelf != nil && (self.Cmp(in.MinSelf) >= 0) != (shareFigure.Cmp(in.MinSelf) >= 0) {
+						env.Note("entries-where-min-self-lies-between-token-and-share-figure")
+						r.flips++
+					}
 				}
 				if v[1].Cmp(total) != 0 {
 					env.Violate("C05.formula", "total-mismatch", fmt.Sprintf("%s: recorded total %s, formula %s", k, v[1], total), r.hist)
@@ -439,6 +497,8 @@ func domVotingPower(env *Env) error {
 		}
 	}
 	vpScenarioEmptyAssetList(env)
+	vpScenarioFailingAVS(env)  // dom_votingpower_multi.go
+	vpScenarioSlashedSelf(env) // dom_votingpower_multi.go
 	for hi := 0; hi < n; hi++ {
 		seed := env.Report.Seed*1000 + uint64(hi)
 		cfg := DefaultCfg(seed)
@@ -459,9 +519,27 @@ func domVotingPower(env *Env) error {
 		c := distrBoot(h)
 		r := &vpRunner{env: env, c: c}
 		r.start(fmt.Sprintf("random-%d", hi))
-		second := ""
-		var secondMinSelf uint64
-		secondAssets := []int{}
+		// up to three further AVSs, spread over the AVS store (the hook walks it in address order, the
+		// chain's own AVS sits somewhere in between), and — in two histories of three — a staking
+		// asset that x/assets knows and the oracle does not: an AVS that lists it cannot be priced,
+		// its UpdateVotingPower returns an error at every epoch end until the list is repaired
+		var extras []*vpExtra
+		unpriced := ""
+		if rng.Chance(2, 3) {
+			unpriced = r.registerUnpriced()
+		}
+		pickIDs := func(nonEmpty bool, unpricedOneIn int) []string {
+			var ids []string
+			for i := range cfg.Assets {
+				if rng.Chance(2, 3) || (nonEmpty && i == len(cfg.Assets)-1 && len(ids) == 0) {
+					ids = append(ids, c.AssetIDs[i])
+				}
+			}
+			if unpriced != "" && rng.Chance(1, unpricedOneIn) {
+				ids = append(ids, unpriced)
+			}
+			return ids
+		}
 		nStakers := 0
 		var nonce uint64
 		type deleg struct {
@@ -472,7 +550,7 @@ func domVotingPower(env *Env) error {
 		nb := 8 + rng.Intn(maxBlocks)
 		for b := 0; b < nb; b++ {
 			for k := rng.Intn(4); k > 0; k-- {
-				switch rng.Pick(3, 4, 2, 2, 2, 2, 2) {
+				switch rng.Pick(3, 4, 2, 2, 3, 3, 3, 1) {
 				case 0: // price change through the oracle keeper
 					ai := rng.Intn(len(cfg.Assets))
 					tid := uint64(ai + 1)
@@ -528,43 +606,30 @@ func domVotingPower(env *Env) error {
 					err := vpUndelegate(c, dl.st, dl.ai, dl.oi, amt, nonce)
 					env.Outcome(fmt.Sprintf("undelegate:%v", err == nil))
 					r.op(fmt.Sprintf("vp.note undelegate staker=%s asset=%d op=%d amt=%s ok=%v", dl.st.Eth.Hex(), dl.ai, dl.oi, amt, err == nil), "ok")
-				case 4: // register the second AVS (own assets, min self-delegation, epoch identifier)
-					if second != "" {
+				case 4: // register a further AVS (own assets, min self-delegation, epoch identifier, place in the AVS store)
+					if len(extras) >= 3 {
 						continue
 					}
-					addr := "0x" + fmt.Sprintf("%040x", 0x1000+hi)
-					var ids []string
-					secondAssets = nil
-					for i := range cfg.Assets {
-						if rng.Chance(2, 3) || (i == len(cfg.Assets)-1 && len(ids) == 0) {
-							ids = append(ids, c.AssetIDs[i])
-							secondAssets = append(secondAssets, i)
-						}
-					}
-					minSelf := []uint64{0, 1, 100, 2000, 1000000}[rng.Intn(5)]
+					x := &vpExtra{addr: vpExtraAddr(rng, hi, len(extras))}
+					ids := pickIDs(true, 8)
+					x.minSelf = r.pickMinSelf(rng, ids)
 					eid := []string{epochstypes.MinuteEpochID, epochstypes.HourEpochID}[rng.Intn(2)]
-					err := c.CachedDo(func(ctx sdk.Context) error {
-						return c.App.AVSManagerKeeper.UpdateAVSInfo(ctx, &avstypes.AVSRegisterOrDeregisterParams{
-							AvsName: "second", AvsAddress: addr, SlashContractAddr: addr, RewardContractAddr: addr,
-							AvsOwnerAddress: []string{c.Funded.Acc.String()}, AssetID: ids, UnbondingPeriod: 2, MinSelfDelegation: minSelf,
-							EpochIdentifier: eid, MinOptInOperators: 1, MinTotalStakeAmount: 1, AvsReward: 10, AvsSlash: 10,
-							CallerAddress: c.Funded.Acc.String(), Action: 1,
-						})
-					})
+					if rng.Chance(1, 2) {
+						eid = cfg.EpochID // ends together with the chain's own AVS
+					}
+					err := r.registerAVS(x.addr, ids, x.minSelf, eid)
 					env.Outcome(fmt.Sprintf("register-avs:%v", err == nil))
 					if err == nil {
-						second = addr
-						secondMinSelf = minSelf
-						info, _ := c.App.AVSManagerKeeper.GetAVSInfo(c.Ctx, addr)
-						r.op(fmt.Sprintf("vp.avs %s %s %d", strings.ToLower(addr), info.Info.EpochIdentifier, info.Info.StartingEpoch), "ok")
+						extras = append(extras, x)
 					}
-				case 6: // the second AVS changes its asset list: empty, everything, a subset, one asset
-					if second == "" {
+				case 6: // an AVS changes its asset list: empty, everything, a subset, one asset, one the oracle cannot price, repaired
+					if len(extras) == 0 {
 						continue
 					}
+					x := extras[rng.Intn(len(extras))]
 					var ids []string
 					tag := ""
-					switch rng.Pick(3, 3, 2, 2) {
+					switch rng.Pick(3, 3, 2, 2, 3, 2) {
 					case 0:
 						tag = "empty"
 					case 1:
@@ -580,30 +645,40 @@ func domVotingPower(env *Env) error {
 					case 3:
 						tag = "one"
 						ids = []string{c.AssetIDs[rng.Intn(len(cfg.Assets))]}
+					case 4:
+						tag = "with-unpriced"
+						ids = pickIDs(false, 1)
+					case 5:
+						tag = "repaired"
+						ids = pickIDs(true, 1000000)
 					}
-					if rng.Chance(1, 4) {
-						secondMinSelf = []uint64{0, 1, 100, 2000, 1000000}[rng.Intn(5)]
+					if rng.Chance(1, 3) {
+						x.minSelf = r.pickMinSelf(rng, ids)
 					}
-					r.updateAssets(second, ids, secondMinSelf, tag)
-				case 5: // opt in / out of the second AVS
-					if second == "" {
+					r.updateAssets(x.addr, ids, x.minSelf, tag)
+				case 5: // opt in / out of a further AVS
+					if len(extras) == 0 {
 						continue
 					}
+					x := extras[rng.Intn(len(extras))]
 					oi := rng.Intn(cfg.NOperators)
 					acc := c.Operators[oi].Acc
-					if c.App.OperatorKeeper.IsOptedIn(c.Ctx, acc.String(), second) {
-						err := c.CachedDo(func(ctx sdk.Context) error { return c.App.OperatorKeeper.OptOut(ctx, acc, second) })
+					if c.App.OperatorKeeper.IsOptedIn(c.Ctx, acc.String(), x.addr) {
+						err := c.CachedDo(func(ctx sdk.Context) error { return c.App.OperatorKeeper.OptOut(ctx, acc, x.addr) })
 						env.Outcome(fmt.Sprintf("optout:%v", err == nil))
 						if err == nil {
-							r.op(fmt.Sprintf("vp.optout %s %s", second, acc), "ok")
+							r.op(fmt.Sprintf("vp.optout %s %s", x.addr, acc), "ok")
 						}
 					} else {
-						err := c.CachedDo(func(ctx sdk.Context) error { return c.App.OperatorKeeper.OptIn(ctx, acc, second) })
+						err := c.CachedDo(func(ctx sdk.Context) error { return c.App.OperatorKeeper.OptIn(ctx, acc, x.addr) })
 						env.Outcome(fmt.Sprintf("optin:%v", err == nil))
 						if err == nil {
-							r.op(fmt.Sprintf("vp.optin %s %s", second, acc), "ok")
+							r.op(fmt.Sprintf("vp.optin %s %s", x.addr, acc), "ok")
 						}
 					}
+				case 7: // slash of an operator's pools (shares stay: share price drops below 1)
+					oi := rng.Intn(cfg.NOperators)
+					r.slash(oi, r.slashPower(rng, oi), int64([]int{1, 5, 10, 1 + rng.Intn(50), 1 + rng.Intn(99)}[rng.Intn(5)]), rng.Chance(1, 3))
 				}
 			}
 			var d time.Duration
@@ -623,12 +698,13 @@ func domVotingPower(env *Env) error {
 		}
 		env.Report.Histories++
 		if r.ends > 0 {
-			env.DistinctKey(fmt.Sprintf("h%d-o%d-a%d-e%d-s%v", hi, cfg.NOperators, len(cfg.Assets), r.ends, second != ""))
+			env.DistinctKey(fmt.Sprintf("h%d-o%d-a%d-e%d-s%d-f%d-x%d", hi, cfg.NOperators, len(cfg.Assets), r.ends, len(extras), r.failEnds, r.nSlash))
 		}
 		if hi < 2 {
 			env.Sample(strings.Join(r.hist[:min(len(r.hist), 10)], " ; "))
 		}
-		env.Outcome(fmt.Sprintf("history:ends>0=%v,second=%v", r.ends > 0, second != ""))
+		env.Outcome(fmt.Sprintf("history:ends>0=%v,second=%v", r.ends > 0, len(extras) > 0))
+		env.Outcome(fmt.Sprintf("history:avs-after-failing-one=%v,slashed=%v,min-self-between-token-and-share=%v", r.afterFail > 0, r.nSlash > 0, r.flips > 0))
 	}
 	return nil
 }
